@@ -301,3 +301,10 @@ Proof. induction l1 as [|y t IH]; cbn; auto. destruct (Nat.eqb x y); cbn; congru
 
 Lemma remove_nat_idem x l : remove_nat x (remove_nat x l) = remove_nat x l.
 Proof. apply remove_nat_notin. rewrite remove_nat_In. tauto. Qed.
+
+Lemma adel_aset_absent {V : Type} k (v : V) m : aget k m = None -> adel k (aset k v m) = m.
+Proof.
+  induction m as [|[k' v'] t IH]; cbn; intros H.
+  - rewrite Nat.eqb_refl. auto.
+  - destruct (Nat.eqb_spec k k'); [discriminate|]. cbn. destruct (Nat.eqb_spec k k'); [congruence|]. f_equal. auto.
+Qed.
